@@ -11,6 +11,9 @@ def run(tier):
     rd = replay.Replay("harness.modes:c14delta")
     rd.run_lens("delta_ops")
     out.add_replay(rd, "termmachine")
+    ri = replay.Replay("harness.modes:c14integ")
+    ri.run_lens("delta_integ")
+    out.add_replay(ri, "termmachine")
     rg = replay.Replay("harness.modes:c14gauss", procs=8, chunk=2)
     rg.run_lens("GaussCat")
     out.add_replay(rg, "gaussops")
@@ -35,6 +38,10 @@ def run(tier):
     cov["traces_validated_against_impl"] += rg.records
     cov["gaussian_sampling_problems"] = rg.records
     cov["gaussian_sampling_verdicts"] = dict(rg.counts)
+    cov["states"] += ri.states
+    cov["transitions"] += ri.transitions
+    cov["traces_validated_against_impl"] += sum(ri.counts.values())
+    cov["integrate_against_delta_verdicts"] = dict(ri.counts)
     cov["delta_declines"] = {"%s/%s" % k: n for k, n in rd.sigs.most_common(8)}
     out.coverage = cov
     return out.finish()
